@@ -65,6 +65,24 @@ def main() -> int:
                 proof["problems"].append("disallowed assumptions: %s" % bad_ax)
             if audit["ok"] and audit.get("n_print_assumptions", 0) < len(audit["theorems"]):
                 proof["problems"].append("a theorem lacks its Print Assumptions")
+            if args.tier == "thorough" and audit["ok"]:
+                # independent re-check of the compiled property file and everything it depends on
+                import subprocess
+                cp = subprocess.run(["timeout", "1500", "coqchk", "-silent", "-o", "-Q", "theories", "ICG", "-Q", "properties", "ICGP",
+                                     f"ICGP.{pid}"], cwd=str(common.COQ), capture_output=True, text=True)
+                out = cp.stdout + cp.stderr
+                proof["coqchk_cmd"] = f"cd /verif/coq && coqchk -silent -o -Q theories ICG -Q properties ICGP ICGP.{pid}"
+                import re as _re
+                m = _re.search(r"\* Axioms:(.*?)\* Constants/Inductives relying on type-in-type", out, _re.S)
+                axtxt = m.group(1).strip() if m else "?"
+                proof["coqchk_axioms"] = axtxt
+                if cp.returncode != 0:
+                    proof["problems"].append("coqchk failed: " + out[-600:])
+                elif axtxt != "<none>":
+                    names = [l.strip() for l in axtxt.splitlines() if l.strip()]
+                    bad = [a for a in names if a.split(":")[0].strip() not in ALLOWED_AXIOMS]
+                    if bad:
+                        proof["problems"].append(f"coqchk reports axioms: {bad[:5]}")
             forb = scan_forbidden()
             proof["forbidden_hits"] = forb
             if forb:
@@ -103,6 +121,7 @@ def main() -> int:
         "theorems": proof.get("theorems", []),
         "axioms_reported_by_Print_Assumptions": proof.get("axioms", []),
         "proof_problems": proof["problems"],
+        "coqchk": {"cmd": proof.get("coqchk_cmd"), "axioms": proof.get("coqchk_axioms")} if proof.get("coqchk_cmd") else "thorough tier only",
         "evaluations": ctx.evaluations,
         "distinct_nontrivial": len(ctx.nontrivial),
         "rule": getattr(mod, "RULE", ""),
